@@ -37,10 +37,12 @@ package raft
 //@ interface LogStore.FirstIndex()
 //@   modifies nothing
 //@   ensures  value: result1 == nil ==> result0 == this.first
+//@   ensures  lower_bound: result1 == nil ==> forall i uint64 :: this.has[i] ==> result0 != 0 && result0 <= i
 
 //@ interface LogStore.LastIndex()
 //@   modifies nothing
 //@   ensures  value: result1 == nil ==> result0 == this.last
+//@   ensures  upper_bound: result1 == nil ==> forall i uint64 :: this.has[i] ==> 1 <= i && i <= result0
 
 // ---------------------------------------------------------------------------
 // C19: LogCache
@@ -272,6 +274,8 @@ package raft
 //@   ensures  kept_unchanged: forall i uint64 :: r.logs.has[i] ==> old(r.logs.has[i]) && r.logs.ent[i] == old(r.logs.ent[i])
 //@   ensures  short_log_untouched: lastLogIdx <= trailingLogs ==> r.logs.has == old(r.logs.has) && r.logs.ent == old(r.logs.ent)
 //@   ensures  error_untouched: result != nil ==> r.logs.has == old(r.logs.has) && r.logs.ent == old(r.logs.ent)
+//@   ensures  prefix_removed: result == nil && lastLogIdx > trailingLogs ==>
+//@              forall i uint64 :: r.logs.has[i] == (old(r.logs.has[i]) && i > min(snapIdx, lastLogIdx - trailingLogs))
 //@   ensures  one_prefix: result == nil && (exists i uint64 :: old(r.logs.has[i]) && !r.logs.has[i]) ==>
 //@              forall i uint64 :: r.logs.has[i] == (old(r.logs.has[i]) && !(old(r.logs.first) <= i && i <= min(snapIdx, lastLogIdx - trailingLogs)))
 
@@ -426,3 +430,20 @@ package raft
 //@   ensures  log_untouched: r.lastLogIndex == old(r.lastLogIndex) && r.lastLogTerm == old(r.lastLogTerm) && r.commitIndex == old(r.commitIndex)
 //@   ensures  state_untouched: r.state == old(r.state)
 //@   loop 1 invariant terms: r.currentTerm == curTermDurable(r) && voteTerm(r) <= curTermDurable(r)
+
+//@ spec func cfg(r *Raft) Config = cast(r.conf.v, Config)
+
+//@ func (r *Raft) compactLogs
+//@   requires nonnil: r != nil && r.logs != nil
+//@   requires config_loaded: typeis(r.conf.v, Config)
+//@   modifies r.logs.has, r.logs.ent, r.logs.first, r.logs.last
+//@   ensures  deletes_le_snapshot: forall i uint64 :: old(r.logs.has[i]) && !r.logs.has[i] ==> i <= snapIdx
+//@   ensures  keeps_trailing_below_log_tail: forall i uint64 :: old(r.logs.has[i]) && !r.logs.has[i] ==> i + cfg(r).TrailingLogs <= r.lastLogIndex
+//@   ensures  kept_unchanged: forall i uint64 :: r.logs.has[i] ==> old(r.logs.has[i]) && r.logs.ent[i] == old(r.logs.ent[i])
+//@   ensures  short_log_untouched: r.lastLogIndex <= cfg(r).TrailingLogs ==> r.logs.has == old(r.logs.has) && r.logs.ent == old(r.logs.ent)
+
+//@ func (r *Raft) removeOldLogs
+//@   requires nonnil: r != nil && r.logs != nil
+//@   modifies r.logs.has, r.logs.ent, r.logs.first, r.logs.last
+//@   ensures  wholesale: result == nil ==> forall i uint64 :: !r.logs.has[i]
+//@   ensures  error_untouched: result != nil ==> r.logs.has == old(r.logs.has) && r.logs.ent == old(r.logs.ent)
